@@ -262,6 +262,36 @@ def build_leaf(name):
     raise ValueError(d)
 
 
+def build_warm_leaf(name):
+    """The same shape as build_leaf(name) (rational polygon leaves only), but as an object
+    with a past: built 37 units to the right and 11 down, asked every kind of question there,
+    then moved back in place.  Its geometry is exactly that of the plain leaf; anything the
+    library remembered about the old position must not influence later answers."""
+    from . import lib
+
+    d = leaf_data(name)
+    assert d[0] == "verts" and all(not isinstance(v, float) for p in d[1] for v in p), "warm leaves are rational polygons"
+    S = lib.SimpleShape(lib.JordanCurve.from_vertices([(x + 37, y - 11) for x, y in d[1]]))
+    other = lib.SimpleShape(lib.JordanCurve.from_vertices([(30, -20), (60, -15), (45, 10)]))
+    S.box()
+    float(S)
+    j = S.jordans[0]
+    float(j)
+    j.box()
+    (38, -10) in S
+    j.intersection(other.jordans[0])
+    other.jordans[0].intersection(j)
+    other in S
+    S in other
+    S == other
+    lib.IntegrateShape.polynomial(S, 1, 1)
+    for seg in j.segments:
+        seg.box()
+        seg.derivate()
+    S.move(-37, 11)
+    return S
+
+
 def verts_shape(verts):
     from . import lib
 
@@ -358,6 +388,8 @@ def expr_id(e):
     t = e[0]
     if t == "L":
         return e[1]
+    if t == "WL":
+        return "warm:" + e[1]
     if t == "PC":
         return "PC." + e[1] + "#" + (e[2] if len(e) > 2 else "int")
     if t == "V":
@@ -375,7 +407,7 @@ def expr_id(e):
 
 def expr_leaves(e):
     t = e[0]
-    if t in ("L", "V", "PC"):
+    if t in ("L", "V", "PC", "WL"):
         return [e]
     if t in ("E", "W"):
         return []
@@ -392,6 +424,8 @@ def lib_eval(e, trace=None):
     t = e[0]
     if t == "L":
         return build_leaf(e[1])
+    if t == "WL":
+        return build_warm_leaf(e[1])
     if t == "PC":
         return build_pc(e[1], e[2] if len(e) > 2 else "int")
     if t == "V":
@@ -427,7 +461,7 @@ def lib_eval(e, trace=None):
 
 def model_eval(e):
     t = e[0]
-    if t == "L":
+    if t in ("L", "WL"):
         return leaf_region(e[1])
     if t == "PC":
         return pc_region(e[1], e[2] if len(e) > 2 else "int")
